@@ -456,6 +456,17 @@ func main() {
 				if m.Timestamp() != g.TS || string(m.Name()) != sanitizeName(g.Name) {
 					out.Violation(idx, "row-changed", fmt.Sprintf("flat: name %q ts %d", m.Name(), m.Timestamp()), nil)
 				}
+				// the row's own namespace, else the request's, else the default one
+				wantNS := g.NS
+				if wantNS == "" {
+					wantNS = ns
+				}
+				if wantNS == "" {
+					wantNS = "default-ns"
+				}
+				if got := string(m.Namespace()); got != sanitizeName(wantNS) {
+					out.Violation(idx, "namespace-changed", fmt.Sprintf("flat: row namespace %q, request namespace %q, stored %q", g.NS, ns, got), nil)
+				}
 			}
 		}
 		// line protocol (tags go through a map: a repeated key keeps one of its values)
